@@ -312,6 +312,7 @@ def run(res: Results, idx: Index, tier: str) -> None:
     rule_f(res, idx)
     rule_g(res, idx)
     rule_i(res, idx)
+    rule_j(res, idx)
     if not getattr(res, "_nested_xref", False):
         # the declared element type of an input follows the dtype the input specification is normalised to: a normalisation
         # step that consults the ambient x64 flag (outside the export's precision scope) narrows 64-bit example arrays in a
@@ -583,3 +584,31 @@ def rule_i(res: Results, idx: Index) -> None:
     res.analysed["input_creating_helpers"] = len(helpers)
     if not helpers:
         raise AnalysisError("no helper that creates a named graph input was found (ensure_external_flag moved?)")
+
+
+# ---------------------------------------------------------------------------------------------- R-C05j
+def rule_j(res: Results, idx: Index) -> None:
+    """The precision flag governs FLOATING widths.  An integer result keeps the type JAX computed (int16 stays int16; consumers
+    are typed from their avals).  A lowering that picks an integer element type from the flag alone (`INT64 if
+    enable_double_precision else INT32`) retypes every integer width: scan results of int16 met int16 operands as INT32 and
+    the model did not load.  Every conditional on the precision flag inside the plugins is an instance; its branches may not
+    both be literal integer element types."""
+    res.rule("R-C05j", "no integer element type is chosen from the precision flag alone (integers follow the aval's dtype)", floor=5)
+    n = 0
+    for m in idx.product_modules():
+        if "/plugins/" not in m.rel or ".examples" in m.name:
+            continue
+        for fi in m.funcs.values():
+            for x in walk_no_nested(fi.node):
+                if not (isinstance(x, ast.IfExp) and "double" in src(x.test, 120).lower()):
+                    continue
+                n += 1
+                key = f"{m.rel}::{fi.qualname}::flag-chosen-type#{sum(1 for y in walk_no_nested(fi.node) if isinstance(y, ast.IfExp) and 'double' in src(y.test, 120).lower() and y.lineno < x.lineno)}"
+                site = f"{m.rel}:{x.lineno}"
+                lit = lambda e: isinstance(e, ast.Attribute) and e.attr.startswith(("INT", "UINT")) and "DataType" in src(e, 40)
+                if lit(x.body) and lit(x.orelse):
+                    res.violation("R-C05j", site, key, f"`{src(x, 70)}` picks an integer element type from the precision flag: results whose JAX type is another integer width (int8 / int16 / uint8, or int32 in a "
+                                  "double-precision export) are retyped and no longer match the operands typed from their avals", fi.qualname)
+                else:
+                    res.ok("R-C05j", site, key, f"`{src(x, 60)}`: not a pair of literal integer types", fi.qualname)
+    res.analysed["precision_flag_conditionals"] = n
